@@ -46,7 +46,8 @@ def capacity_goal(ex, st, dialect, known):
     elif t in ("decimal", "number"):
         # decimal(p[, 0]) / number(p, 0) holds p digits: p has to be the number of digits of the magnitude (A-INT: a number of d digits is below 10^d)
         p_ = r[1] if len(r) > 1 else None
-        goal = z3.BoolVal(False) if p_ is None else (lift(p_).z == z3.Length(z3.IntToStr(m)))
+        # the magnitude is sign adjusted (a lower limit -n arrives as n - 1), so both limits are at most m + 1 in absolute value: p = digits of m + 1 holds them
+        goal = z3.BoolVal(False) if p_ is None else (lift(p_).z == z3.Length(z3.IntToStr(m + 1)))
         if len(r) > 2: goal = z3.And(goal, lift(r[2]).z == 0)
     else: goal = z3.BoolVal(False)
     if known:
@@ -246,7 +247,8 @@ HISTORY_CID = 'd,format,delimited\n' + "".join("f,%s,,x,,Text\n" % n for n in ("
 def unit_c19_table():
     def run(ctx):
         import re
-        bounds = sorted({s * (b + d) for b in (2**7, 2**8, 2**15, 2**16, 2**31, 2**32, 2**63) for d in (-1, 0, 1) for s in (1, -1)} | {0, 1, -1})
+        bounds = sorted({s * (b + d) for b in (2**7, 2**8, 2**15, 2**16, 2**31, 2**32, 2**63) for d in (-1, 0, 1) for s in (1, -1)} | {0, 1, -1}
+                        | {s * (10**k + d) for k in (10, 19, 20) for d in (-1, 0, 1) for s in (1, -1)})          # powers of ten: where the number of digits changes
         known = findings.is_known("K-8", "C19")
         def cases():
             for d in DIALECTS:
@@ -272,8 +274,8 @@ def unit_c19_table():
                 # decimal(p[, 0]) / number(p, 0): p digits, i.e. values up to 10^p - 1 - enough for both limits, and no more digits than the larger limit has
                 p_ = int(re.match(r"\((\d+)", m.group(2)).group(1)) if m.group(2) else None
                 digits = max(len(str(abs(lo))), len(str(abs(hi))))
-                if p_ is None or not (10 ** min(p_, 400) > max(abs(lo), abs(hi)) and p_ <= digits):
-                    return {"expected": "%s(%d) - as many digits as the larger limit has" % (t, digits), "observed": m.group(0).strip()}
+                if p_ is None or not (10 ** min(p_, 400) > max(abs(lo), abs(hi)) and p_ <= digits + 1):
+                    return {"expected": "%s(%d) - as many digits as the larger limit has (one to spare at most)" % (t, digits), "observed": m.group(0).strip()}
             return None
         r1 = sweep("C19/table/integer ranges at every type boundary", cases(), check, "bounded",
                    "4 dialects x all pairs lo <= hi over {+-(2^7, 2^8, 2^15, 2^16, 2^31, 2^32, 2^63) +- 1, 0, +-1}" + (" (regions of known finding K-8 excluded)" if known else ""),
